@@ -600,6 +600,19 @@ func sessCase(env *core.Env, idx int, prop string) *core.CaseResult {
 			if s.dead {
 				break
 			}
+			// what the indexes answer is observable too: every index of every table against its heap (point look-ups of all
+			// stored keys, full range scans), also for index kinds the SQL layer does not plan with (hash)
+			for _, t := range s.tabs {
+				var problems []string
+				if msg, panicked := guarded(func() { problems, _, _ = s.db.IndexAudit(t.t.Name, t.idx, nil, nil) }); panicked {
+					problems = []string{"index audit panicked: " + msg}
+				}
+				res.Add("index_audits_after_clean_restart", 1)
+				if len(problems) > 0 {
+					res.Violate("index-changed-by-restart", s.tags, s.desc("index audit after reopen"), "after a clean shutdown and reopen the indexes of %s disagree with the table: %s", t.t.Name, strings.Join(clipList(problems, 4), "; "))
+					break
+				}
+			}
 			var diffs []string
 			for k, v := range before {
 				if strings.Join(v, "\n") != strings.Join(after[k], "\n") {
